@@ -93,6 +93,11 @@ def documents(tier):
     for i, e in enumerate(['("[name]" = "Lake (north")', '("[name]" = "a)b" AND [x] > 1)', "([a] = ')' OR [b] = '(')", '(("a)" + [a]) * ([b] + 2))',
                            '([a] IN "1,2" AND NOT ([b] ~ "^(x|y)$"))', '(tostring([area],"%.2f (ha)"))', '{a (1),b}', '/^(a|b)\\)$/']):
         out.append(("EXPR %d" % i, "LAYER\n  TYPE POINT\n  CLASS\n    EXPRESSION %s\n    TEXT %s\n  END\nEND" % (e, e if e.startswith("(") else '"t"')))
+    # keywords that are also block names, holding simple values and being the longest keyword of their object
+    for i, t in enumerate(['STYLE\n  SYMBOL 2\n  SIZE 3\n  COLOR 1 2 3\nEND', 'QUERYMAP\n  STYLE HILITE\n  SIZE 1 2\nEND', 'SCALEBAR\n  STYLE 1\n  SIZE 20 3\nEND',
+                           'CLASS\n  SYMBOL 5\n  NAME "c"\n  SIZE 3\nEND', 'MAP\n  SYMBOLSET "s.txt"\n  NAME "n"\n  ANGLE 0\nEND', 'STYLE\n  SYMBOL [sym]\n  GAP 2\nEND',
+                           'LAYER\n  TYPE POINT\n  CLASS\n    STYLE\n      SYMBOL "x"\n      SIZE 1\n    END\n  END\nEND']):
+        out.append(("AMBIG %d" % i, t))
     # string values spanning several lines (LF, CRLF and CR inside the value), in keyword, METADATA and PROCESSING position
     out.append(("MULTI lf", 'LAYER\n  TYPE POINT\n  DATA "select *\n  from t\n\n  where x"\n  METADATA\n    "k" "v1\nv2"\n  END\n  PROCESSING "A=1\nB=2"\nEND'))
     out.append(("MULTI crlf", 'LAYER\n  TYPE POINT\n  DATA "select *\r\n  from t"\n  NAME "a\rb"\nEND'))
